@@ -132,7 +132,7 @@ fn generate_into(fields: &[syn::Field]) -> TokenStream {
         let line = if field.ty.to_token_stream().to_string() == "()" {
             quote! {
                 #sum
-                tk.extend(::prototk::FieldNumber::must(#num));
+                tk.extend_with_key(::prototk::FieldNumber::must(#num), (), #dir);
             }
         } else {
             quote! {
